@@ -368,6 +368,7 @@ structure Env where
   truthy : Val → Bool
   allow : Bool := false
   startValue : Option Val := none
+  resVal : Res → Val := fun _ => 0
   /-- `before_transition`, `on_transition`, `after_transition` -/
   genBefore : List CbId := []
   genOn : List CbId := []
@@ -413,6 +414,6 @@ def toStateDef (env : Env) (c : Cls) (s : SDecl) : StateDef :=
 
 def toMachine (env : Env) (c : Cls) : Machine :=
   { states := c.states.map (toStateDef env c), behav := env.behav, truthy := env.truthy,
-    allow := env.allow, startValue := env.startValue }
+    allow := env.allow, startValue := env.startValue, resVal := env.resVal }
 
 end SMV.Decl
